@@ -739,9 +739,7 @@ func (x *c12run) values() {
 		c.Dist("value:duration")
 		c.Res.OracleChecks++
 		x.durAll++
-		if ms != math.MinInt64 {
-			x.durProved++
-		}
+		x.durProved++ // C12_duration_roundtrip covers every int64 (MinInt64 included since the repair)
 		cls := func(base string) string {
 			if ms == math.MinInt64 {
 				return clsDurationMin
@@ -1171,9 +1169,7 @@ func (x *c12run) newDecimal(i int64, e int) {
 	c.Dist("newdecimal:" + got[:2])
 	if e >= -4 && e <= 14 {
 		x.ndAll++
-		if e <= 0 || inI64(new(big.Int).Mul(big.NewInt(i), new(big.Int).Exp(big.NewInt(10), big.NewInt(int64(e)), nil))) {
-			x.ndProved++
-		}
+		x.ndProved++ // C12_newDecimal_exact covers every int64 mantissa and every admissible exponent
 	}
 	if got != want {
 		cls := "newdecimal-inexact"
@@ -1499,12 +1495,15 @@ func (x *c12run) eraSweep() {
 
 // replayWitnesses: the witnesses of the `_counterexample` theorems, replayed on the Go code.
 func (x *c12run) replayWitnesses() {
-	x.newDecimal(184468, 14)                                 // C12_newDecimal_counterexample
-	x.literal("decimal", "+1.5", "witness")                  // leading '+'
-	x.literal("duration", "-9223372036854775808ms", "witness") // C12_duration_min_counterexample
-	x.literal("datetime", "+999999999-12-31", "witness")
-	x.literal("datetime", "-292275055-05-16T16:47:04.192Z", "witness") // C12_datetime_min_counterexample
+	// witnesses of the repaired defects (regression `example`s in Properties/C12.lean): a VIOLATION if one returns
+	x.newDecimal(184468, 14)                                   // was C12_newDecimal_counterexample
+	x.literal("decimal", "+1.5", "witness")                    // was C12_decimal_plus_counterexample
+	x.literal("duration", "-9223372036854775808ms", "witness") // was C12_duration_min_literal_counterexample
+	x.literal("datetime", "+999999999-12-31", "witness")       // was C12_datetime_dateonly_counterexample
 	x.literal("ip", "fe80::1%eth0", "witness")
+	x.literal("ip", "fe80::1%eth0/64", "witness")
+	// witness of the remaining counterexample theorem
+	x.literal("datetime", "-292275055-05-16T16:47:04.192Z", "witness") // C12_datetime_min_counterexample
 	x.fromFloat(922337203685477.5808)
 	x.fromFloat(math.NaN())
 	if gd, err := types.NewDurationFromMillis(9223372036855).Duration(); err == nil && gd < 0 {
